@@ -24,7 +24,7 @@ pub fn exec_tracker(
     reference: bool,
     case: &TrackerCase,
     snapshots: bool,
-) -> (Option<History>, Option<Violation>) {
+) -> (Option<History>, Vec<Violation>) {
     let shared: Arc<Mutex<Option<History>>> = Arc::new(Mutex::new(None));
     let s2 = shared.clone();
     let c2 = case.clone();
@@ -47,19 +47,28 @@ pub fn exec_tracker(
     if r.context_switches > 0 && case.ops.len() >= 2 {
         out.stats.nontrivial = true;
     }
-    let v = r.abort.as_ref().map(|a| {
-        let prop = match a {
-            Abort::Deadlock(_) | Abort::StepBound(_) => {
-                if case.cfg.kind.is_batch() {
-                    "C06"
-                } else {
-                    "C01"
+    // who owns an aborted execution: a panic means the call delivered no result
+    // (C01); for batch trackers it also means a scene result was never delivered
+    // (C06); deadlock / no progress is C06's bounded liveness for batch trackers
+    // and C01's for simple ones
+    let v: Vec<Violation> = match r.abort.as_ref() {
+        None => vec![],
+        Some(a) => {
+            let batch = case.cfg.kind.is_batch();
+            match a {
+                Abort::Deadlock(_) | Abort::StepBound(_) => {
+                    vec![abort_violation(if batch { "C06" } else { "C01" }, "run", a)]
+                }
+                Abort::Panic(_) => {
+                    let mut v = vec![abort_violation("C01", "run", a)];
+                    if batch {
+                        v.push(abort_violation("C06", "run", a));
+                    }
+                    v
                 }
             }
-            Abort::Panic(_) => "C01",
-        };
-        abort_violation(prop, "run", a)
-    });
+        }
+    };
     (if r.abort.is_some() { None } else { h }, v)
 }
 
@@ -443,8 +452,8 @@ impl Engine for TrackerEngine {
             base.cfg.shards = 1;
         }
         let (h0, abort) = exec_tracker(&mut out, &plan, 0, prop == "C05", &base, true);
-        if let Some(a) = abort {
-            out.violation = own(&mut out, prop, vec![a]);
+        if !abort.is_empty() {
+            out.violation = own(&mut out, prop, abort);
             return out;
         }
         let Some(h0) = h0 else { return out };
@@ -476,8 +485,8 @@ impl Engine for TrackerEngine {
                     let mut c = tc.clone();
                     c.cfg.shards = var["shards"].as_u64().unwrap_or(1) as usize;
                     let (h, abort) = exec_tracker(&mut out, &plan, 1 + vi, false, &c, false);
-                    if let Some(a) = abort {
-                        out.violation = own(&mut out, prop, vec![a.clone()]).or_else(|| {
+                    if let Some(a) = abort.first().cloned() {
+                        out.violation = own(&mut out, prop, abort).or_else(|| {
                             Some(report("C05", "variant-aborted", "run", "abort", format!("variant with {} shards aborted: {}", c.cfg.shards, a.msg)))
                         });
                         return out;
@@ -498,7 +507,7 @@ impl Engine for TrackerEngine {
                 let need_rerun = b2.ops.len() != base.ops.len();
                 let (hb, c_base) = if need_rerun {
                     let (h, abort) = exec_tracker(&mut out, &plan, 1, false, &b2, false);
-                    if abort.is_some() || h.is_none() {
+                    if !abort.is_empty() || h.is_none() {
                         return out;
                     }
                     (h.unwrap(), b2.clone())
@@ -518,7 +527,7 @@ impl Engine for TrackerEngine {
                     }
                     c.ops.insert(0, TOp::SetAutoWaste(p));
                     let (h, abort) = exec_tracker(&mut out, &plan, 2 + vi, false, &c, false);
-                    if abort.is_some() {
+                    if !abort.is_empty() {
                         continue;
                     }
                     let Some(mut h) = h else { continue };
@@ -585,8 +594,8 @@ impl Engine for TrackerEngine {
                         continue;
                     }
                     let (h, abort) = exec_tracker(&mut out, &plan, 1 + si, false, &c, false);
-                    if let Some(a) = abort {
-                        out.violation = own(&mut out, prop, vec![a]);
+                    if !abort.is_empty() {
+                        out.violation = own(&mut out, prop, abort);
                         if out.violation.is_some() {
                             return out;
                         }
@@ -610,7 +619,7 @@ impl Engine for TrackerEngine {
                 c.cfg.kind = base.cfg.kind.simple_twin();
                 c.cfg.shards = variants.first().and_then(|v| v["shards"].as_u64()).unwrap_or(1) as usize;
                 let (h, abort) = exec_tracker(&mut out, &plan, 1, true, &c, false);
-                if abort.is_some() {
+                if !abort.is_empty() {
                     out.stats.probe("twin_aborted", 1);
                     return out;
                 }
@@ -638,7 +647,7 @@ impl Engine for TrackerEngine {
                     let mut c = base.clone();
                     c.cfg.constraints = None;
                     let (h, abort) = exec_tracker(&mut out, &plan, 1, false, &c, false);
-                    if abort.is_some() {
+                    if !abort.is_empty() {
                         return out;
                     }
                     let Some(h) = h else { return out };
@@ -660,7 +669,7 @@ impl Engine for TrackerEngine {
                     let mut c = base.clone();
                     c.cfg.constraints = Some(vec![(1, 1.0e6), (3, 2.0e6), (100, 3.0e6)]);
                     let (h, abort) = exec_tracker(&mut out, &plan, 1, false, &c, false);
-                    if abort.is_some() {
+                    if !abort.is_empty() {
                         return out;
                     }
                     let Some(h) = h else { return out };
